@@ -31,13 +31,13 @@ CHECKS = {
              'remove_all preserve the representation invariant (sorted, disjoint, non-adjacent, non-empty) and compute '
              'union/difference/intersection pointwise; is_covered/is_overlap agree with the set view; find partitions; '
              'structurally different canonical lists denote different sets; the Zwerg words ?contains, ?overlaps, add, sub, length '
-             '(builtin-aset.cc) are lowered on top and checked the same way. Bounded jobs are never counted as discharged '
+             '(builtin-aset.cc), the constant-operand words aset/add/sub/?contains and value_aset::cmp (value-aset.cc) are lowered '
+             'on top and checked the same way. Bounded jobs are never counted as discharged '
              'proof obligations.',
         design_ref='DESIGN.md section 4 C16',
         note='Trusted: cxx2c lowering (native differential test per run); props/c16/vecmodel.{h,c} as the contract of '
              'std::vector<cov_range> (capacity fixed, growth not modelled); precondition start+length does not wrap; '
-             'is_covered/is_overlap specified for length>0. Not covered: value_aset::cmp, the words aset/low/high/range/elem, '
-             'rendering.',
+             'is_covered/is_overlap specified for length>0. Not covered: the words low/high/range/elem, rendering.',
         technique='CBMC code contracts with loop contracts (unbounded safety) + bounded unwinding of the same extracted text against set-semantics postconditions',
     ),
     'C09': dict(
@@ -49,11 +49,13 @@ CHECKS = {
              'operator agrees with <, arithmetic domains compare by value, unrelated domains never equal. Loop-free, so complete. '
              'Also: comparison_result (builtin-cmp.cc, body of ?lt ?eq ?gt) never fails, answers exactly one of < == >, is '
              'antisymmetric and agrees with compare_stack on one-slot stacks; compare_stack/stack operators (stack.cc) BOUNDED '
-             '(<= 2 slots quick, 3 thorough): reflexive, antisymmetric, transitive, equal iff slot-wise equal.',
+             '(<= 2 slots quick, 3 thorough): reflexive, antisymmetric, transitive, equal iff slot-wise equal; value_cst::cmp is '
+             'the three-way form of the constant order (proof); value_str::cmp compares bytewise then by length (BOUNDED, strings '
+             'of <= 2 bytes quick / 3 thorough, std::string by a model).',
         design_ref='DESIGN.md section 4 C09',
         note='Trusted: cxx2c lowering; uninterpreted-function abstraction of the virtual domain methods plus two stated '
              'assumptions about them (MODEL_OK); domain addresses modelled as elements of one array; virtual value::cmp by a model. '
-             'Not covered: cmp of strings, sequences, DIEs, address sets.',
+             'Not covered: cmp of sequences and DIEs (address sets: C16).',
         technique='CBMC code contracts + order-axiom lemmas on C lowered from the real C++ per run',
     ),
     'C13': dict(
@@ -61,7 +63,8 @@ CHECKS = {
         text='Slice: the layout arithmetic that places every operator state in the shared state area (layout::reserve, align, '
              'size). Contract: for power-of-two alignment the location is aligned, lies beyond everything reserved before with '
              'less than one alignment of padding, and the area grows to exactly location+size; client lemma from the contract '
-             'alone: two successive reservations are disjoint. All sizes/alignments, loop-free. Plus parse_esc_num of lexer.ll (flex '
+             'alone: two successive reservations are disjoint; add_union never shrinks the area and ends at least as large as every '
+             'alternative (loop contract + ghost index, any number of alternatives). All sizes/alignments. Plus parse_esc_num of lexer.ll (flex '
              'regenerated per run): under the scanner rules that call it, no access outside [yytext, yytext+yyleng), no error, '
              'the value of the digits.',
         design_ref='DESIGN.md section 4 C13',
@@ -89,7 +92,8 @@ CHECKS = {
              'operator<<(ostream&, mpz_class) (int.cc), read back by the lowered parse_int (parser.yy): for ALL 2^65 values in hex and '
              'oct (digit loops bounded by the width, fully unwound) and BOUNDED |v| <= 9999 (999999 thorough) in decimal the '
              'rendering reads back as an equal value of the same domain, no error, stream state restored -- except the listed known '
-             'finding (0 in hex/oct renders as decimal "0"). (B) Strings, BOUNDED: dumper::dump_charp lowered per run from /repo/dwgrep/dwgrep.cc (with ios_flag_saver\'s real '
+             'finding (0 in hex/oct/bin renders as decimal "0"); the bin domain likewise for all values; positive_int_from_mpz '
+             '(dwcst.cc), the code under which named constants are looked up for rendering, under contract. (B) Strings, BOUNDED: dumper::dump_charp lowered per run from /repo/dwgrep/dwgrep.cc (with ios_flag_saver\'s real '
              'constructor/destructor; std::ostream replaced by a small trusted model of insertion, hex, setw, setfill, flags). '
              'For every byte string of length <= 3 (4 in thorough) over all 256 byte values, the brief rendering is consumed by a '
              'transcription of the scanner\'s <STRING> rules as exactly one plain literal that decodes to the same bytes (hence '
@@ -98,7 +102,7 @@ CHECKS = {
         design_ref='DESIGN.md section 4 C20',
         note='Mixed: hex/oct jobs are unbounded, the rest bounded; the evidence level is "other". Trusted: cxx2c lowering; the '
              'ostream/isprint model; the std::stoull model; the hand transcription of the flex <STRING> rules. Not covered: '
-             'named-constant tables, the bin domain, %d %x %o %b, other dump_* functions.',
+             'the generated named-constant tables, %d %x %o %b, other dump_* functions.',
         technique='bounded unwinding (CBMC) of C lowered from the real C++ per run against a scanner-model postcondition',
     ),
     'C11': dict(
@@ -107,10 +111,14 @@ CHECKS = {
              '(and need/get) lowered per run from /repo/libzwerg/stack.hh with std::vector<std::unique_ptr<value>> replaced by a '
              'small trusted model. Contracts: each operation preserves "byte d of the profile = type code of the slot at depth d '
              'for the top four slots, 0 where the stack is shallower", for any stack depth (only the top eight slots are read); '
-             'pop/drop on a too shallow stack raise and change nothing; push/pop/drop change the depth by +1/-1/-n.',
+             'pop/drop on a too shallow stack raise and change nothing; push/pop/drop change the depth by +1/-1/-n. Also: '
+             'overload_pred::result (overload.cc) answers fail when no overload takes the operand types, else the selected '
+             'overload\'s verdict (proof, lookup modelled); ?find/?starts/?ends on strings (value-str.cc) agree with the byte-string '
+             'model for all haystacks/needles of length <= 3 (BOUNDED, std::string by a model).',
         design_ref='DESIGN.md section 4 C11',
-        note='SLICE ONLY: the word implementations (strings, sequences, integers), overload lookup and operand collection are not '
-             'covered. Trusted: cxx2c lowering; the vector/unique_ptr model (ownership not modelled); type codes 1..127.',
+        note='SLICE: the other word implementations (sequences, integers, match, elem, add, length, radix words, shuffling), overload '
+             'lookup and operand collection are not covered. Trusted: cxx2c lowering; the vector/unique_ptr model (ownership not '
+             'modelled); the std::string model; type codes 1..127.',
         technique='CBMC code contracts on C lowered from the real C++ per run',
     ),
     'C07': dict(
